@@ -28,11 +28,12 @@ NEXT_HOOK = {"write": ("flush.start", "flush.written"), "publish": ("flush.writt
              "clear": ("flush.published", "flush.passive_cleared"), "clean": ("flush.passive_cleared", "flush.wal_cleaned")}
 
 
-def gen(n, gen_len, seed):
+def gen(n, gen_len, seed, cap=2, hold=0):
     d = core.WORK / "cfg"
     d.mkdir(parents=True, exist_ok=True)
-    cfg = d / f"FlushReadGen_{gen_len}.cfg"
-    cfg.write_text((core.SPEC / "FlushReadGen.cfg").read_text().replace("GenLen = 14", f"GenLen = {gen_len}"))
+    cfg = d / f"FlushReadGen_{gen_len}_{cap}_{hold}.cfg"
+    cfg.write_text((core.SPEC / "FlushReadGen.cfg").read_text().replace("GenLen = 14", f"GenLen = {gen_len}")
+                   .replace("Cap = 2", f"Cap = {cap}").replace("HoldUntil = 0", f"HoldUntil = {hold}"))
     r = core.tlc("FlushReadGen", cfg, workers=1, simulate=n, depth=gen_len + 1, seed_=seed, timeout=300)
     if r.error or r.violated:
         core.log(r.out[-2000:])
@@ -50,7 +51,7 @@ def features(b):
     f = set()
     for x in b:
         if x["a"] == "read":
-            f.add(("read", x["stage"], min(x["passives"], 3)))
+            f.add(("read", x["stage"], min(x["passives"], 3) if x["passives"] < 9 else 9))
     return f
 
 
@@ -94,7 +95,15 @@ def stage_r(chk, bindir, tier, stats):
     q = tier == "quick"
     behs, r = gen(600 if q else 4000, 14, core.seed())
     behs2, r2 = gen(300 if q else 2000, 22, core.seed() + 1)
-    allb = behs + behs2
+    # deep queues: the worker is held at the start of its first job while 10-13 rotations queue up
+    # (capacity 1), reads at every depth, then the pipeline drains
+    behs3, r3 = gen(40 if q else 300, 34, core.seed() + 2, cap=1, hold=12)
+    for b in behs + behs2:
+        b.append({"a": "cfg", "cap": 2})
+    for b in behs3:
+        b.append({"a": "cfg", "cap": 1})
+    deep = [b for b in behs3 if any(x["a"] == "read" and x["passives"] >= 9 for x in b)]
+    allb = behs + behs2 + deep
     random.Random(core.seed()).shuffle(allb)
     # greedy cover of (stage x number of passive buffers) classes, then fill
     chosen, covered = [], set()
@@ -103,7 +112,10 @@ def stage_r(chk, bindir, tier, stats):
         if f - covered:
             chosen.append(b)
             covered |= f
-    limit = 60 if q else 600
+    for b in deep[:6 if q else 60]:
+        if b not in chosen:
+            chosen.append(b)
+    limit = max(60 if q else 600, len(chosen))
     for b in allb:
         if len(chosen) >= limit:
             break
@@ -115,7 +127,9 @@ def stage_r(chk, bindir, tier, stats):
         if root.exists():
             shutil.rmtree(root)
         root.mkdir(parents=True)
-        rc, obs, err = core.run_vdrive(bindir, script_for(beh, root, 2), timeout=120)
+        cap = beh[-1]["cap"]
+        beh = beh[:-1]
+        rc, obs, err = core.run_vdrive(bindir, script_for(beh, root, cap), timeout=180)
         by = {}
         bad_park = None
         for o in obs:
@@ -182,7 +196,7 @@ def stage_r(chk, bindir, tier, stats):
             if not ok and any(v for v in chk.violations):
                 pass
         shutil.rmtree(root, ignore_errors=True)
-    return r.distinct + r2.distinct, r.generated + r2.generated
+    return r.distinct + r2.distinct + r3.distinct, r.generated + r2.generated + r3.generated
 
 
 def stage_m(chk, tier):
